@@ -625,21 +625,20 @@ class _Evaluator:
         return end, [values], binds, _NOCUT
 
     def _pjoin(self, e, pos, keepsep):
-        """e {s ~ e} -> (failure, cut seen at the level of the first e) | success tuple"""
-        self._later_cut = False
+        """e {s ~ e} -> (success tuple | None, cut seen at the level of the first e, a later iteration failed
+        after the separator's cut)"""
         r = self._body(e[2], pos)
         if type(r) is not tuple:
-            return None, r
+            return None, r, False
         p, v, binds, c = r
         values = [v]
         end = self._more(e[2], e[1], keepsep, p, values, binds, False)
-        self._later_cut = end is None
         if end is None:
-            return None, c
-        return (end, [values], binds, _NOCUT), c
+            return None, c, True
+        return (end, [values], binds, _NOCUT), c, False
 
     def _join(self, e, pos, keepsep, positive):
-        r, c = self._pjoin(e, pos, keepsep)
+        r, c, later_cut = self._pjoin(e, pos, keepsep)
         if r is not None:
             return r
         if positive:
@@ -647,7 +646,7 @@ class _Evaluator:
         # s%{e} = s%{e}+ | {} : the first option failed
         if c == _CUT:
             return _NOCUT
-        if self._later_cut:
+        if later_cut:
             self.used_policy.add('join_cut')
             if self.policy['join_cut'] == 'fail':
                 return _NOCUT
